@@ -61,10 +61,13 @@ def cases(ctx):
                     out.append({"id": "%s|%s:%s|%s" % (meth, shape, ty, form), "meth": meth, "lty": lty, "rty": rty, "form": form,
                                 "modes": modes if form == "vv" else modes[:1],
                                 "pairs": [(s, 0) if shape == "di" else (0, s) for s in sc], "weight": 20 if form == "vv" else 5})
+    out += rounding_kernel_obligations(ctx)
     return out
 
 
 def run_case(ctx, case):
+    if case.get("delegate"):
+        return run_delegated(ctx, case)
     prog = ctx.program("dev")
     res = Res(case["id"])
     if case["meth"] == "normalize":
@@ -107,6 +110,8 @@ def normalize_obligation(ctx, prog, res):
 
 
 def replay(ctx, native, v):
+    if v.get("info", {}).get("delegate"):
+        return replay_delegated(ctx, native, v)
     if v["info"].get("kind") == "cdr":
         from . import C04
         return C04.replay(ctx, native, v)
